@@ -24,7 +24,7 @@ def translate_docs(docs, tag, want=("ui", "header")):
             results[i] = r
             if r.get("panic") or r.get("has_syntax_error"):
                 continue
-            if r.get("has_error"):
+            if r.get("has_error") and hasattr(docs[i], "drop_rejected"):
                 bad = docs[i].drop_rejected(r.get("diagnostics", []))
                 for b in bad:
                     msgs = [d["message"] for d in r["diagnostics"] if b.span[0] <= d["start"] <= b.span[1]]
